@@ -79,6 +79,10 @@ for _t in SIMPLE:
 
 # ------------------------------------------------------------------------------------------ histories (bounded)
 
+def _make_default():
+    return 'made'
+
+
 def make_pool():
     Int10 = Integer(ge=10)
     Str5 = Unicode(max_len=5)
@@ -110,12 +114,13 @@ def make_pool():
     Name = Unicode(64, server_default='n/a')
     NameIdx = Name(index=True)
     Pat = Unicode(pattern='[a-z]+')             # a pattern-restricted text type (derivations may drop the pattern)
+    Fact = Unicode(default_factory=_make_default, max_len=9)     # a type whose default is computed by a callable
 
     class Node(ComplexModel):                   # a recursive model: the placeholder SelfReference stands for the class
         __namespace__ = TNS
         v = Integer
         child = SelfReference
-    return dict(Pat=Pat, Node=Node, Int10=Int10, Str5=Str5, Base=Base, Derived=Derived, Arr=Arr, ArrInt=ArrInt, V1=V1, V2=V2,
+    return dict(Pat=Pat, Node=Node, Fact=Fact, Int10=Int10, Str5=Str5, Base=Base, Derived=Derived, Arr=Arr, ArrInt=ArrInt, V1=V1, V2=V2,
                 Pending=Pending, Pending2=Pending2, Holder=Holder, Integer=Integer, Unicode=Unicode, Name=Name, NameIdx=NameIdx)
 
 
@@ -174,7 +179,8 @@ OPS = ['prim_call', 'simple_customize', 'complex_customize', 'child_attrs', 'chi
        # module-level constant is, and derivations with a result contract of their own
        'child_attrs_noexc_shared_args', 'child_attrs_noexc_shared_args_on_derived', 'child_attrs_shared_args',
        'mandatory_with_kwargs', 'mandatory_unicode', 'mandatory_integer',
-       'pattern_removed', 'pattern_removed_then_derived', 'declare_recursive_customized', 'declare_recursive_plain']
+       'pattern_removed', 'pattern_removed_then_derived', 'declare_recursive_customized', 'declare_recursive_plain',
+       'derive_from_default_factory', 'derive_twice_from_default_factory', 'mandatory_from_default_factory']
 
 
 def _attrs(m):
@@ -233,6 +239,25 @@ def apply_op(c, op, pool, step):
         src_attrs = _attrs(P['Integer'])
         out = c.run(Mandatory, P['Integer'])
         exp['result'] = lambda new: _mandatory_result(src_attrs, new, {})
+    elif op in ('derive_from_default_factory', 'derive_twice_from_default_factory', 'mandatory_from_default_factory'):
+        if op == 'mandatory_from_default_factory':
+            out = c.run(Mandatory, P['Fact'])
+        else:
+            out = c.run(P['Fact'].customize, min_occurs=1)
+            if out.returned and op == 'derive_twice_from_default_factory':
+                out = c.run(out.value.customize, max_occurs=3)
+
+        def result(new):
+            bad = []
+            if new.Attributes.default_factory is not _make_default:
+                bad.append(('default_factory', repr(new.Attributes.default_factory)))
+            if new.Attributes.max_len != 9:
+                bad.append(('max_len', new.Attributes.max_len))
+            H = type(ComplexModel)('HoldsFact', (ComplexModel,), {'__namespace__': TNS, '_type_info': [('f', new)]})
+            if H().f != 'made':
+                bad.append(('instance default', repr(H().f)))
+            return bad
+        exp['result'] = result
     elif op in ('pattern_removed', 'pattern_removed_then_derived'):
         out = c.run(P['Pat'].customize, pattern=None)
         if out.returned and op == 'pattern_removed_then_derived':
